@@ -16,12 +16,14 @@ Close Scope Q_scope.
 Open Scope string_scope.
 
 (* ---------- types and values ---------- *)
-Inductive ty := TInt | TFloat | TString | TBytes | TBool | TInts | TTime.
+Inductive ty := TInt | TFloat | TString | TBytes | TBool | TInts | TTime
+| TPArr       (* *[N]int: a pointer to an array of integers *)
+| TMapIS.     (* map[int]string *)
 
 Definition ty_eqb (a b : ty) : bool :=
   match a, b with
   | TInt, TInt | TFloat, TFloat | TString, TString | TBytes, TBytes
-  | TBool, TBool | TInts, TInts | TTime, TTime => true
+  | TBool, TBool | TInts, TInts | TTime, TTime | TPArr, TPArr | TMapIS, TMapIS => true
   | _, _ => false
   end.
 
@@ -29,12 +31,15 @@ Inductive fl := FNaN | FInf (neg : bool) | FFin (q : Q).
 
 Inductive value :=
 | VInt (z : Z) | VFloat (f : fl) | VStr (s : string) | VBytes (s : string)
-| VBool (b : bool) | VInts (l : list Z) | VTime (ns : Z).
+| VBool (b : bool) | VInts (l : list Z) | VTime (ns : Z)
+| VPArr (n : nat) (o : option (list Z))   (* pointer to an array of length n: nil, or the array's elements *)
+| VMap (m : list (Z * string)).           (* a map as an association list (nil and empty maps read alike) *)
 
 Definition vty (v : value) : ty :=
   match v with
   | VInt _ => TInt | VFloat _ => TFloat | VStr _ => TString | VBytes _ => TBytes
   | VBool _ => TBool | VInts _ => TInts | VTime _ => TTime
+  | VPArr _ _ => TPArr | VMap _ => TMapIS
   end.
 Definition has_type (v : value) (t : ty) : Prop := vty v = t.
 
@@ -42,6 +47,7 @@ Definition default_value (t : ty) : value :=
   match t with
   | TInt => VInt 0 | TFloat => VFloat (FFin 0%Q) | TString => VStr "" | TBytes => VBytes ""
   | TBool => VBool false | TInts => VInts [] | TTime => VTime 0
+  | TPArr => VPArr 0 None | TMapIS => VMap []
   end.
 
 (* ---------- events, outcomes, environments ---------- *)
@@ -146,6 +152,9 @@ Definition value_eqb (a b : value) : bool :=
   | VBool x, VBool y => Bool.eqb x y
   | VInts x, VInts y => list_eqb Z.eqb x y
   | VTime x, VTime y => Z.eqb x y
+  | VPArr n x, VPArr m y =>
+      Nat.eqb n m && match x, y with None, None => true | Some a, Some b => list_eqb Z.eqb a b | _, _ => false end
+  | VMap x, VMap y => list_eqb (fun p q => Z.eqb (fst p) (fst q) && String.eqb (snd p) (snd q)) x y
   | _, _ => false
   end.
 
@@ -482,6 +491,9 @@ Definition prim_apply (p : prim) (args : list value) : option outcome :=
   | PLen, [VStr s] => Some (RVal (VInt (slen s)))
   | PLen, [VBytes s] => Some (RVal (VInt (slen s)))
   | PLen, [VInts l] => Some (RVal (VInt (Z.of_nat (List.length l))))
+  (* the length of an array is part of its type: len(p) of a nil *[N]int is N, nothing is dereferenced *)
+  | PLen, [VPArr n _] => Some (RVal (VInt (Z.of_nat n)))
+  | PLen, [VMap m] => Some (RVal (VInt (Z.of_nat (List.length m))))
   | PStringOfBytes, [VBytes s] => Some (RVal (VStr s))
   | PBytesOfString, [VStr s] => Some (RVal (VBytes s))
   | PStrIndex, [VStr s; VStr t] => Some (RVal (VInt (str_index s t)))
@@ -520,7 +532,7 @@ Definition prim_apply (p : prim) (args : list value) : option outcome :=
 
 Definition prim_type (p : prim) (ts : list ty) : option ty :=
   match p, ts with
-  | PLen, [TString] | PLen, [TBytes] | PLen, [TInts] => Some TInt
+  | PLen, [TString] | PLen, [TBytes] | PLen, [TInts] | PLen, [TPArr] | PLen, [TMapIS] => Some TInt
   | PStringOfBytes, [TBytes] => Some TString
   | PBytesOfString, [TString] => Some TBytes
   | PStrIndex, [TString; TString] => Some TInt
@@ -562,12 +574,26 @@ Definition index_apply (a i : value) : option outcome :=
                  | Some z => RVal (VInt z)
                  | None => RPanic
                  end)
+  (* p[k] dereferences p: a nil pointer panics *)
+  | VPArr _ None, VInt _ => Some RPanic
+  | VPArr _ (Some l), VInt k =>
+      Some (if (k <? 0)%Z then RPanic
+            else match nth_Z l (Z.to_nat k) with
+                 | Some z => RVal (VInt z)
+                 | None => RPanic
+                 end)
+  (* a map read never panics: the zero value for an absent key *)
+  | VMap m, VInt k =>
+      Some (RVal (VStr match find (fun p => Z.eqb (fst p) k) m with Some p => snd p | None => "" end))
   | _, _ => None
   end.
 
 Definition slice_all_apply (a : value) : option outcome :=
   match a with
   | VStr _ | VInts _ | VBytes _ => Some (RVal a)
+  (* p[:] slices the array p points to: a slice value, not the pointer; nil panics *)
+  | VPArr _ None => Some RPanic
+  | VPArr _ (Some l) => Some (RVal (VInts l))
   | _ => None
   end.
 
@@ -576,7 +602,8 @@ Definition binop_type (o : binop) (a b : ty) : option ty :=
   if negb (ty_eqb a b) then None
   else match o with
        | OLAnd | OLOr => match a with TBool => Some TBool | _ => None end
-       | OEq | ONe => match a with TInt | TFloat | TString | TBool => Some TBool | _ => None end
+       (* pointers are comparable (typed), but pointer identity is not a value of the model (not evaluated) *)
+       | OEq | ONe => match a with TInt | TFloat | TString | TBool | TPArr => Some TBool | _ => None end
        | OLt | OLe | OGt | OGe => match a with TInt | TFloat | TString => Some TBool | _ => None end
        | OAdd => match a with TInt | TFloat | TString => Some a | _ => None end
        | OSub => match a with TInt | TFloat => Some a | _ => None end
@@ -611,12 +638,14 @@ Fixpoint typeof (e : expr) : option ty :=
       end
   | EIndex a i =>
       match typeof a, typeof i with
-      | Some TString, Some TInt | Some TInts, Some TInt | Some TBytes, Some TInt => Some TInt
+      | Some TString, Some TInt | Some TInts, Some TInt | Some TBytes, Some TInt | Some TPArr, Some TInt => Some TInt
+      | Some TMapIS, Some TInt => Some TString
       | _, _ => None
       end
   | ESliceAll a =>
       match typeof a with
       | Some TString => Some TString | Some TInts => Some TInts | Some TBytes => Some TBytes
+      | Some TPArr => Some TInts
       | _ => None
       end
   | EVarK _ _ t => Some t
